@@ -133,6 +133,31 @@ def cases(seed, tier):
         if rng.random() < 0.25:
             generic.add_device_faults(rng, c, dv, k=1, kinds=("raise",))
         yield c
+    # a subscriber fails while it is handed a stream's descriptor; the plan copes with the error at that 'save' and
+    # takes the data point again: a subscriber registered *after* the failing one still gets, before any event of the
+    # stream, the descriptor that event refers to
+    d0 = pg.dets[0]
+    for j in range(2):
+
+        def bundle(stream="primary"):
+            return [msg(S, "create", None, name=stream), msg(S, "read", d0), msg(S, "save")]
+
+        plan = [msg(S, "open_run"), msg(S, "checkpoint")]
+        plan.append({"op": "try", "site": S(), "body": bundle(), "handlers": [{"exc": "Exception", "body": [msg(S, "null")] + bundle(), "reraise": False}]})
+        plan += [msg(S, "checkpoint")] + bundle()
+        if rng.random() < 0.5:
+            plan.append({"op": "try", "site": S(), "body": bundle("aux"), "handlers": [{"exc": "Exception", "body": bundle("aux"), "reraise": False}]})
+        plan.append(msg(S, "close_run"))
+        c = copy.deepcopy(case)
+        c["variant"] = f"subscriber-raises-on-descriptor-{j}"
+        c["callbacks"] = {"cbX": {"raise_at": {"descriptor": [rng.choice([0, 0, 1])]}}, "cbY": {}}
+        c["script"] = [
+            {"do": "subscribe", "cb": "cbX", "name": "all", "token": "x0"},
+            {"do": "subscribe", "cb": "cbY", "name": "all", "token": "y0"},
+            {"do": "call", "plan": plan, "main": True},
+        ]
+        c["suspenders"] = {}
+        yield c
 
 
 def check(res):
@@ -143,6 +168,20 @@ def check(res):
         return out
     inv = v.invocations[0]
     evs = inv.events
+    if str(res.case.get("variant", "")).startswith("subscriber-raises-on-descriptor"):
+        docs = {e.d["doc"].get("uid"): e.d["doc"] for e in evs if e.kind == "doc" and e.d["name"] in ("event", "descriptor")}
+        given = set()
+        res.notes["subscriber_raises_on_descriptor"] = 1
+        for e in evs:
+            if e.kind == "cb" and e.d["cid"] == "cbY":
+                if e.d["name"] == "descriptor":
+                    given.add(e.d["uid"])
+                elif e.d["name"] == "event":
+                    want = (docs.get(e.d["uid"]) or {}).get("descriptor")
+                    if want is not None and want not in given:
+                        out.append(V("subscriber-got-event-without-its-descriptor", f"a subscriber registered after the failing one received event {str(e.d['uid'])[:8]} but never the descriptor {str(want)[:8]} it refers to"))
+                        break
+        return out
     msgs = {}  # mid -> most recent 'msg' event (a replayed message is handed over again)
     specs = res.case["devices"]
 
